@@ -184,10 +184,27 @@ class Driver:
         out = [(re.compile(rx), bound, "A1: Scalar::sub result < l")]
         if self.backend == "u32":
             # A2: the 17 outputs of the Karatsuba Scalar29::mul_internal / square_internal are the true column sums
-            # sum_{i+j=k} a_i*b_j (the wrapping intermediates cancel): at most min(k+1,17-k) products of 29-bit limbs
-            cols = ("arr", tuple(I(0, min(k + 1, 17 - k) * (2**29 - 1) ** 2) for k in range(17)))
+            # sum_{i+j=k} a_i*b_j (the wrapping intermediates cancel); bounded from the actual argument intervals
+            def cols(ip, st, args):
+                a = ip.deref_val(st, args[0])
+                b = ip.deref_val(st, args[1]) if len(args) > 1 else a
+                try:
+                    al = [x for x in a[1][0][1]]
+                    bl = [x for x in b[1][0][1]]
+                    out = []
+                    for k in range(17):
+                        lo = hi = 0
+                        for i in range(9):
+                            j = k - i
+                            if 0 <= j < 9:
+                                lo += al[i][1] * bl[j][1]
+                                hi += al[i][2] * bl[j][2]
+                        out.append(I(lo, hi))
+                    return ("arr", tuple(out))
+                except (IndexError, TypeError):
+                    return ("arr", tuple(I(0, min(k + 1, 17 - k) * (2**29 - 1) ** 2) for k in range(17)))
             out.append((re.compile(r"backend::serial::(u32|fiat_u32)::scalar::Scalar29::(mul_internal|square_internal)$"), cols,
-                        "A2: Scalar29 Karatsuba column sums are the true sums (< 9*2^58)"))
+                        "A2: Scalar29 Karatsuba column sums are the true sums of products of the argument limbs"))
         return out
 
     def root_candidates(self, module_rx, exclude_rx=None, exported_only=True):
